@@ -16,7 +16,6 @@ AbstractExcelInPython copy of the runtime):
      evaluator gives absolute expected values under overrides.
 """
 import copy
-import datetime
 import json
 import multiprocessing
 import os
@@ -829,7 +828,7 @@ def fixed_cases(tier):
 
 # ------------------------------------------------------------------------------------------------ one case
 def plan(tier):
-    return {'quick': {'rich': 150, 'arith': 120, 'nops': 25, 'addr': 60},
+    return {'quick': {'rich': 110, 'arith': 90, 'nops': 25, 'addr': 60},
             'thorough': {'rich': 2600, 'arith': 1800, 'nops': 50, 'addr': 120}}[tier]
 
 
@@ -1003,9 +1002,16 @@ def run_reuse(i, ctx=None):
             ex.set_cells([Cell(*later)])
             b = [q_cell(ex, titles, k, 0) for k in probes]
             gb = [len(ex.get_sheet(s)) for s in range(len(titles))]
-            obs[queried] = {'after_second_set_executed_class': a, 'grid_rows': ga, 'after_next_set_cells': b, 'grid_rows_2': gb}
+            # overrides that are in force (read back) must have an entry in the grid of their sheet
+            missing = []
+            for (s, c, r, v) in first + [later]:
+                if q_cell(ex, titles, (s, c, r), 0) == vkey(v) and (s, c, r) not in [coord_of(x, titles) for row in ex.get_sheet(s) for x in row]:
+                    missing.append(a1(titles, (s, c, r)))
+            obs[queried] = {'after_second_set_executed_class': a, 'grid_rows': ga, 'after_next_set_cells': b, 'grid_rows_2': gb,
+                            'overrides_in_force_without_grid_entry': missing}
         for f in obs[True]:
             out.append((f, obs[True][f], obs[False][f]))
+        out.append(('overrides_in_force_without_grid_entry (must be empty)', obs[True]['overrides_in_force_without_grid_entry'] + obs[False]['overrides_in_force_without_grid_entry'], []))
     return out
 
 
@@ -1099,7 +1105,7 @@ def run(tier='quick', seed=0):
             agg['executor_reuse']['ev'] += 1
             agg['executor_reuse']['nt'] += 1
             if a != b:
-                agg['executor_reuse']['fails'].append({'key': 'C08.executor_reuse.' + ('values' if 'grid' not in what else 'grid') + '_depend_on_earlier_queries',
+                agg['executor_reuse']['fails'].append({'key': 'C08.executor_reuse.stale_overrides_after_set_executed_class',
                                                        'what': f'workbook {i}: {what}: executor queried before the second set_executed_class -> {a}, not queried -> {b}',
                                                        'size': i, 'index': i, 'replay': {'kind': 'reuse', 'i': i}})
         agg['executor_reuse']['samples'] = [{'workbook': REUSE[0][0], 'overrides': REUSE[0][1]}]
